@@ -57,3 +57,19 @@ claim("C19",
        "registered before the constructor returns; inbound dispatch offers each message to the all-types handlers and then to the handlers of its extracted type. What a handler does with the message is the application's.",
   note="Trusted: go/ssa; canonical rendering; map/append semantics of Go.",
   design_ref="DESIGN.md §3 C19")
+
+claim("C05",
+  technique="must-held lockset analysis over go/ssa (lock regions), who-may-call census of numbering/send sites, no-spawn check on the send chain, operand-flow matching of the header stamps",
+  text="The premises of the ordering argument are decided for every schedule: the number is taken, the header stamped and the message enqueued inside one Session.mu region (and one DefaultHandler.mu region below it); there is a single numbering site and a single Router.Send site; "
+       "no goroutine is spawned between numbering and the FIFO channel; the bundled counter is an atomic increment-and-return and is never reset or set by the session; the stamps are the number just taken, the session's (mirrored) identifiers and time.Now() in FIX layout on the message that is sent; "
+       "the channel has one producer function and one consumer per serve function. The argument from these premises to gap-free, ordered numbering on the wire is manual (DESIGN.md); the refused/unsaved case is C19.",
+  note="Trusted: go/ssa; lock identity = mutex field + rendered receiver; Go channel FIFO semantics; sync.Mutex; the consumer side (one writer goroutine calling Conn.Write sequentially) is C04's rule F4.",
+  design_ref="DESIGN.md §3 C05, §2 E2")
+
+claim("C20",
+  technique="lockset (guarded-by) analysis over go/ssa with interprocedural lock inheritance for unexported helpers; atomic-consistency check; completeness census of field stores",
+  text="For all schedules at once: every access to the five guarded fields happens with the guard held on the same object (exclusive for writes), the store's counters are touched only through sync/atomic, and every other struct field of the "
+       "library packages that is written outside its constructor is one of six named configuration fields whose premise is checked. A sufficient condition for race freedom on the library's own shared state; memory reached through application callbacks, "
+       "custom stores, or message objects shared by the application is not modelled.",
+  note="Trusted: go/ssa; the guarded-by table (confirmed by reading every access); sync.Mutex/RWMutex/atomic semantics; constructor-context escape reasoning (object allocated in, or freshly returned to, the function).",
+  design_ref="DESIGN.md §3 C20, §2 E2")
